@@ -59,13 +59,16 @@ func vpH_C07_sessions() {
 		switch vpChoice("op", 4) {
 		case 0: // REQ
 			sub := vpSym1("sub")
-			var f *ReqFilter
-			if vpChoice("filter", 2) == 0 {
-				f = &ReqFilter{}
-			} else {
-				f = &ReqFilter{Kinds: []int64{vpInt64("fkind")}}
+			var fl []*ReqFilter
+			switch vpChoice("filter", 3) {
+			case 0:
+				fl = []*ReqFilter{{}}
+			case 1:
+				fl = []*ReqFilter{{Kinds: []int64{vpInt64("fkind")}}}
+			case 2: // a filter list: a match of any member counts
+				fl = []*ReqFilter{{Kinds: []int64{vpInt64("fkind")}}, {Authors: []string{vpSym1("fauthor")}}}
 			}
-			recvs[c] <- &ClientReqMsg{SubscriptionID: sub, ReqFilters: []*ReqFilter{f}}
+			recvs[c] <- &ClientReqMsg{SubscriptionID: sub, ReqFilters: fl}
 			settle()
 			out := drain(c)
 			vpAssert(len(out) == 1, "C07.session-req-one-reply")
@@ -76,12 +79,12 @@ func vpH_C07_sessions() {
 			replaced := false
 			for i := range ghost[c] {
 				if ghost[c][i].id == sub {
-					ghost[c][i].fs = []*ReqFilter{f}
+					ghost[c][i].fs = fl
 					replaced = true
 				}
 			}
 			if !replaced {
-				ghost[c] = append(ghost[c], vpSessSub{sub, []*ReqFilter{f}})
+				ghost[c] = append(ghost[c], vpSessSub{sub, fl})
 			}
 		case 1: // CLOSE
 			sub := vpSym1("sub")
